@@ -1909,12 +1909,27 @@ fn parse_num_radix<const RADIX: u8>(s: &str) -> Result<f64, ParseNumRadixError> 
         number = number * u128::from(RADIX) + u128::from(digit);
     }
 
-    let mut number = number as f64;
+    // The remaining digits only scale the number, but they must still take
+    // part in rounding: a non-zero digit makes the value larger than the
+    // accumulated prefix, which matters when the prefix is exactly halfway
+    // between two floats.
+    let mut num_extra_digits = 0usize;
     for chr in chars {
-        if chr.to_digit(RADIX.into()).is_none() {
-            return Err(ParseNumRadixError::InvalidDigit(chr));
+        let digit = chr
+            .to_digit(RADIX.into())
+            .ok_or(ParseNumRadixError::InvalidDigit(chr))?;
+        if digit != 0 {
+            number |= 1;
         }
+        num_extra_digits += 1;
+    }
+
+    let mut number = number as f64;
+    for _ in 0..num_extra_digits {
         number *= f64::from(RADIX);
+        if !number.is_finite() {
+            return Err(ParseNumRadixError::Overflow);
+        }
     }
 
     if !number.is_finite() {
